@@ -35,6 +35,9 @@ CHECKS["C02"] = dict(cat="model_checking", tech="TLC model checking of Reader.tl
 CHECKS["C04"] = dict(cat="model_checking", tech="TLC model checking of the non-interference theorem on Resolve.tla (ResolveGen NonInterference) + metamorphic replay on the real servers (foreign-location / unrelated-map edits, tag erasure) + TLC comparison of the paired responses (ResolveTrace memo)",
     text="Non-interference is an invariant of the oracle checked on every file of the bounded universe; on the real servers every query of a client in L is asked on a file and on its edit (records of other locations or unrelated maps added/removed/changed; own view re-written untagged) and TLC requires identical responses on CDB, RocksDB v1 and v2.",
     note=SEM_NOTE, ref="4.6")
+CHECKS["C10"] = dict(cat="model_checking", tech="TLC model checking of LpmImpl.tla ScopeOk (scope = matched length in the client's family, bounded) + ECS queries built from TLC-enumerated subnet sets and an enumerated shapes grid sent through the real handlers + TLC trace validation of OPT/ECS against Resolve.tla JudgeOpt (ResolveTrace)",
+    text="The scope both lookup algorithms report is model-checked truthful and bounded on the toy spaces; every toy client of the enumerated subnet sets (canonical and with host bits on the wire), all IPv4 source lengths and the interesting IPv6 ones, map / no map / no match, REFUSED / referral / NXDOMAIN / answer and cache-hit paths are sent through the real handler on four backends and TLC judges OPT presence, ECS echo and scope of every packed response.",
+    note=SEM_NOTE + " ECS options that already carry a scope or a family other than 1/2 are left to C13.", ref="4.5")
 NA = {}
 props = [json.loads(l)["id"] for l in open(os.path.join(V, "properties.jsonl"))]
 m = {
